@@ -111,6 +111,19 @@ class SpecView:
         self.a, self.o, self.mark0, self.inst, self.state = a, o, mark0, inst, state
 
 
+def buf_predicate(fams):
+    if not fams:
+        return None
+
+    def pred(buf, state):
+        alts = []
+        for (lo, hi, f) in fams:
+            j = fresh('jw')
+            alts.append(z3.Exists([j], z3.And(zi(lo) <= j, j <= zi(hi), buf == f(j))))
+        return z3.Or(*alts)
+    return pred
+
+
 def snapshot(v):
     if isinstance(v, (STT, SList)):
         return v.snapshot()
@@ -153,7 +166,9 @@ class Contract:
         return None
 
     def modifies(self, S):
-        return [], None
+        """(refs of pre-existing lists/objects the function may mutate,
+            families (lo, hi_inclusive, j -> buffer id) of pre-existing array buffers it may write)"""
+        return [], []
 
     # -- call-site semantics ----------------------------------------------------------------------------------------------
     def bind(self, args, kw):
@@ -184,6 +199,22 @@ class Contract:
             ex.ctx.oblige(state, 'pre[%s]:%s' % (self.name, lbl), line, g)
         for exc, cond in self.exceptional(S).items():
             ex.ctx.oblige(state, 'pre[%s]:no-%s' % (self.name, exc), line, z3.Not(zb(cond)))
+        # frame of the callee must lie inside the frame of the caller
+        lists, fams = self.modifies(S)
+        ctx = ex.ctx
+        for r in lists:
+            allowed = zi(r) >= ctx.mark0
+            for r2 in ctx.modifies_lists:
+                allowed = z3.Or(allowed, zi(r) == r2)
+            ctx.oblige(state, 'frame:callee[%s]-mutates-object' % self.name, line, allowed)
+        for (lo, hi, f) in fams:
+            def ok(j, f=f):
+                b = f(j)
+                a = b >= ctx.mark0
+                if ctx.modifies_bufs is not None:
+                    a = z3.Or(a, ctx.modifies_bufs(b, state))
+                return a
+            ctx.oblige(state, 'frame:callee[%s]-writes-buffers' % self.name, line, FA(lo, hi + 1, ok))
         res = self.effect(ex, state, A, inst, line)
         for item in self.ensures(S, res):
             state.assume(item[1])
@@ -281,9 +312,9 @@ def verify_function(contract, inst, registry):
         if r == z3.unsat:
             res['unsupported'] = 'precondition unsatisfiable (vacuous contract)'
             return res
-        lists, bufp = contract.modifies(S0)
+        lists, fams = contract.modifies(S0)
         ctx.modifies_lists = [zi(r) for r in lists]
-        ctx.modifies_bufs = bufp
+        ctx.modifies_bufs = buf_predicate(fams)
         outs = ex.exec_block(node.body, state)
         n_ret = 0
         for o in outs:
